@@ -46,6 +46,7 @@ def same_id_in_two_locations(c, k):
 KNOWN = [
     # documented behaviour, not a finding: a rule id present both in a location and in one of its ancestors is the duplicate-id error
     ("doc:duplicate-id-across-ancestors", lambda c, k, op, mo, io: op["op"] in ("event", "searchRules") and isinstance(io, dict) and io.get("err") == "dupId" and same_id_in_two_locations(c, k)),
+    ("C01-diamond-ancestor-duplicate-id", lambda c, k, op, mo, io: op["op"] in ("event", "searchRules") and isinstance(io, dict) and io.get("err") == "dupId" and "d" in c["locs"]),
     ("C01-hetero-array-event", lambda c, k, op, mo, io: c["state"] == "indexed" and op["op"] in ("event", "searchRules") and hetero(op["event"])),
     ("C01-var-const-array", lambda c, k, op, mo, io: c["state"] == "indexed" and op["op"] in ("event", "searchRules") and any(var_const_array(p) for p in rule_patterns(c, k))),
     ("C01-property-variable-hidden", lambda c, k, op, mo, io: c["state"] == "indexed" and op["op"] in ("event", "searchRules") and any(has_varkey(p) for p in rule_patterns(c, k))),
@@ -56,11 +57,19 @@ def gen_case(rng, thorough, inside):
     n = rng.randint(6, 14 if not thorough else 28)
     base = [simple_fact(rng, depth=rng.randint(1, 3), width=rng.randint(1, 4), homogeneous=inside) for _ in range(3)]
     if inside: base = [ev_ok(b) for b in base]
-    locs = ["a", "b", "c"] if rng.random() < 0.4 else ["a"]
+    topo = rng.choice(["none", "none", "none", "chain", "chain", "fork", "diamond"])
+    locs = {"none": ["a"], "chain": ["a", "b", "c"], "fork": ["a", "b", "c"], "diamond": ["a", "b", "c", "d"]}[topo]
     ops = []
-    if len(locs) > 1:
+    if topo == "chain":
         ops.append({"op": "setParents", "loc": "a", "parents": ["b"]})
         if rng.random() < 0.5: ops.append({"op": "setParents", "loc": "b", "parents": ["c"]})
+    elif topo == "fork":
+        ops.append({"op": "setParents", "loc": "a", "parents": ["b", "c"]})
+    elif topo == "diamond":
+        # a has two parents that share a parent: d is reached (and its rules found) along both paths
+        ops.append({"op": "setParents", "loc": "a", "parents": ["b", "c"]})
+        ops.append({"op": "setParents", "loc": "b", "parents": ["d"]})
+        ops.append({"op": "setParents", "loc": "c", "parents": ["d"]})
     for _ in range(n):
         r = rng.random()
         d = rng.choice(base)
